@@ -16,7 +16,7 @@ func (w *World) initModels() {
 		mt := types.NewMap(types.Typ[types.String], types.NewSlice(types.Typ[types.String]))
 		d, v := c.mapHeaps(mt)
 		h, _ := c.memHeap(types.Typ[types.String])
-		return []havocTarget{{d, ""}, {v, ""}, {"MapLen", ""}, {h, ""}, {allocHeap, ""}}
+		return []havocTarget{{d, "", ""}, {v, "", ""}, {"MapLen", "", ""}, {h, "", ""}, {allocHeap, "", ""}}
 	}
 	// http.Header is map[string][]string keyed by the canonical form of the
 	// field name (uninterpreted function canonHeader, idempotent).
